@@ -1,9 +1,12 @@
 #!/bin/sh
-# Runs every kept seeded change against the checks named in its meta.json (caught_by) and writes seeded/RESULTS.txt
+# Runs kept seeded changes against the checks named in their meta.json (caught_by); results go to seeded/RESULTS-<tag>.txt
+#   tools/seeded_all.sh [tag [glob]]      default: tag=all glob='seeded/C*-*/'
 cd "$(dirname "$0")/.."
-: > seeded/RESULTS.txt
-for d in seeded/C*-*/; do
+TAG="${1:-all}"; GLOB="${2:-seeded/C*-*/}"
+OUT="seeded/RESULTS-$TAG.txt"
+: > "$OUT"
+for d in $GLOB; do
   ids=$(python3 -c "import json,sys; print(' '.join(json.load(open('$d/meta.json'))['caught_by']))")
-  tools/seeded.sh "$d" $ids 2>&1 | grep RESULT | sed "s#$(pwd)/##" >> seeded/RESULTS.txt
+  tools/seeded.sh "$d" $ids 2>&1 | grep RESULT | sed "s#$(pwd)/##" >> "$OUT"
 done
-cat seeded/RESULTS.txt
+cat "$OUT"
